@@ -103,7 +103,8 @@ class C13:
         for r in rows:
             if r[0] == "-" and r[1].startswith("CASE "):
                 o = json.loads(r[1][5:])
-                self.case_rows[o["case"]] = {"format": o.get("format"), "defs_sexp": o.get("defs")}
+                self.case_rows[o["case"]] = {"format": o.get("format"), "defs_sexp": o.get("defs"),
+                                             "text_main": o.get("text_main", ""), "text_lib": o.get("text_lib", "")}
         c.count(stream, n_eval, nt, samples=[{"stream": stream, "request": r[0][:300], "impl": r[1][:100], "oracle": r[2][:100]}
                                              for r in [x for x in rows if x[0].startswith("goequals")][:: max(1, len(rows) // 3)][:3]])
         c.cov["disagreements_checked"] += len(reqs)
@@ -155,7 +156,13 @@ class C13:
                 continue
             if law in ("symmetry", "transitivity", "equal-implies-same-encoding"):
                 if not all(inf["nz"]):
-                    ids.add("mapsNonZero")
+                    # the recorded weakness is about maps with a DECLARED element type (source
+                    # construct `dict`) whose key sets differ; a Go map that the source wrote as a
+                    # free-form object / any other construct is not covered by it
+                    if "dict" in (row.get("srcdiff") or "").split(","):
+                        ids.add("mapsNonZero")
+                    else:
+                        ids.add("zeroReadOutsideDeclaredDict")
             if law in ("reflexive-redecode", "same-encoding-implies-equal"):
                 if not all(inf["ts"]):
                     ids.add("timesShared")
@@ -167,14 +174,17 @@ class C13:
         """second harness run on the failing (schema, object, documents): one-case lab + shrinking"""
         tmp = os.path.join(WORK, "c13_shrink_%d.json" % os.getpid())
         try:
+            cr = self.case_rows.get(row["case"], {})
             json.dump({"format": row.get("format"), "defs": row.get("defs"), "object": row["object"],
-                       "docs": row.get("docs"), "law": row.get("law", ""), "idx": row.get("idx", [])}, open(tmp, "w"))
+                       "docs": row.get("docs"), "law": row.get("law", ""), "idx": row.get("idx", []),
+                       "text_main": cr.get("text_main", ""), "text_lib": cr.get("text_lib", "")}, open(tmp, "w"))
             for r in harness(self.hb, "c13-replay", file=tmp, shrink=1):
                 if r[0] == "-" and len(r) > 2 and r[2].startswith("FAIL"):
                     o = json.loads(r[1])
                     if o.get("law") == row.get("law"):
                         o["format"] = row.get("format")
                         o["kind"] = row.get("kind")
+                        o["case"] = row["case"]  # texts / model definitions of the original case
                         return o
         except Exception as e:  # shrinking is best effort
             log("shrink failed:", e)
@@ -202,8 +212,8 @@ class C13:
         for n, (row, verdict) in enumerate(self.fails):
             law = row.get("law", "?")
             ids, agree, infos = self.excluded_by(row, per_row.get(n, {}))
-            text = "law=%s excludedBy=%s model=%s format=%s object=%s kind=%s text=%s defs=%s docs=%s" % (
-                law, ",".join(ids) or "none", agree, row.get("format"), row["object"], row.get("kind"),
+            text = "law=%s excludedBy=%s model=%s srcdiff=%s format=%s object=%s kind=%s text=%s defs=%s docs=%s" % (
+                law, ",".join(ids) or "none", agree, row.get("srcdiff", "-"), row.get("format"), row["object"], row.get("kind"),
                 row.get("text", "")[:200], row.get("defs", ""), " ".join(row.get("docs", [])))
             kf = c.match_known(text) if (ids and agree == "model-agrees") else None
             if kf:
@@ -218,6 +228,9 @@ class C13:
                              "docs": row.get("docs"), "idx": row.get("idx"), "group_kind": row.get("kind"),
                              "text": row.get("text"), "impl": row.get("reply"), "model": infos,
                              "excludedBy": ids, "model_agreement": agree, "case_text": text[:4000],
+                             "srcdiff": row.get("srcdiff"),
+                             "text_main": self.case_rows.get(row["case"], {}).get("text_main", ""),
+                             "text_lib": self.case_rows.get(row["case"], {}).get("text_lib", ""),
                              "replay_cmd": "./check C13 --replay <this file>"})
 
     def report_disagreements(self, stream, args):
@@ -261,6 +274,7 @@ class C13:
             row = self.case_rows.get(case)
             if row and sa is not None:
                 payload.update({"format": row.get("format"), "defs": row.get("defs_sexp"), "object": parts[3],
+                                "text_main": row.get("text_main", ""), "text_lib": row.get("text_lib", ""),
                                 "docs": [sexp_to_json(sa), sexp_to_json(sb)],
                                 "replay_cmd": "./check C13 --replay <this file>"})
         # an unexplained oracle failure of this run is the concrete failing input of the property;
@@ -384,7 +398,8 @@ def main():
             sys.exit(1)
         tmp = os.path.join(WORK, "c13_replay_%d.json" % os.getpid())
         json.dump({"format": rp.get("format", "jsonschema"), "defs": rp["defs"], "object": rp["object"],
-                   "docs": rp["docs"], "law": rp.get("law", ""), "idx": rp.get("idx", [])}, open(tmp, "w"))
+                   "docs": rp["docs"], "law": rp.get("law", ""), "idx": rp.get("idx", []),
+                   "text_main": rp.get("text_main", ""), "text_lib": rp.get("text_lib", "")}, open(tmp, "w"))
         try:
             x = run_stream(c, hb, "c13-replay", file=tmp)
         finally:
